@@ -32,11 +32,15 @@ fn toggle(flag: &Arc<crate::variable::Mut>) -> Instruction {
     BinOperation { lhs: Instruction::Variable(Variable::Mut(flag.clone())), rhs: Instruction::Variable(Variable::Bool(true)), op: BinOperator::AssignXor }.into()
 }
 /// the instruction kinds occurring in the trees of this file (declared-shape gating, lib/patch.py)
-fn declare_kinds(kinds: u32) {
+/// every scenario declares exactly the instruction kinds and operators of its own tree: the
+/// exploration of unresolved heap instructions grows with (kinds x operators) ^ depth
+fn declare_kinds(kinds: u32, binops: u64) {
     use crate::instruction::verif_gate::*;
-    declare();
+    allow_unops(0);
+    allow_binops(binops);
     allow_mask((1 << K_VARIABLE) | (1 << K_BINOPERATION) | kinds);
 }
+use crate::instruction::verif_gate::b as opbit;
 fn declare() {
     use crate::instruction::verif_gate::*;
     allow_binops(b(crate::BinOperator::AssignAdd) | b(crate::BinOperator::AssignXor) | b(crate::BinOperator::Subtract) | b(crate::BinOperator::And) | b(crate::BinOperator::Or) | b(crate::BinOperator::AssignSubtract));
@@ -64,7 +68,7 @@ fn s(a: i64, b: i64) -> i64 { a.wrapping_add(b) }
 
 /// binary operator: lhs then rhs, each once.  `-` makes the order visible in the result.
 fn binop_order(fold: bool) {
-    declare_kinds(0);
+    declare_kinds(0, opbit(BinOperator::Subtract) | opbit(BinOperator::AssignAdd));
     let (a0, d1, d2): (i64, i64, i64) = (kani::any(), kani::any(), kani::any());
     let acc = new_cell(Type::Int, Variable::Int(a0));
     let mut tree: Instruction = BinOperation { lhs: eff(&acc, d1), rhs: eff(&acc, d2), op: BinOperator::Subtract }.into();
@@ -85,7 +89,7 @@ pub fn order_binop_folded() { binop_order(true); kani::cover!(true); }
 
 /// array, tuple and struct literals: elements left to right, each once
 fn seq_order(kind: u8, fold: bool) {
-    declare_kinds(match kind { 0 => 1 << crate::instruction::verif_gate::K_ARRAY, 1 => 1 << crate::instruction::verif_gate::K_TUPLE, _ => 1 << crate::instruction::verif_gate::K_STRUCT });
+    declare_kinds(match kind { 0 => 1 << crate::instruction::verif_gate::K_ARRAY, 1 => 1 << crate::instruction::verif_gate::K_TUPLE, _ => 1 << crate::instruction::verif_gate::K_STRUCT }, opbit(BinOperator::AssignAdd));
     let (a0, d1, d2, d3): (i64, i64, i64, i64) = (kani::any(), kani::any(), kani::any(), kani::any());
     let acc = new_cell(Type::Int, Variable::Int(a0));
     let elems: Arc<[InstructionWithStr]> = Arc::from(vec![iws(eff(&acc, d1)), iws(eff(&acc, d2)), iws(eff(&acc, d3))]);
@@ -122,7 +126,7 @@ seq_harness!(order_struct_folded, 2, true);
 
 /// `[value; len]`: value then length, each once (length = acc after two increments, kept small)
 fn repeat_order(fold: bool) {
-    declare_kinds(1 << crate::instruction::verif_gate::K_ARRAYREPEAT);
+    declare_kinds(1 << crate::instruction::verif_gate::K_ARRAYREPEAT, opbit(BinOperator::AssignAdd));
     let (d1, d2): (i64, i64) = (kani::any(), kani::any());
     kani::assume(d1 >= 0 && d1 <= 1 && d2 >= 0 && d2 <= 1);
     let acc = new_cell(Type::Int, Variable::Int(0));
@@ -149,7 +153,7 @@ pub fn order_array_repeat_folded() { repeat_order(true); kani::cover!(true); }
 
 /// slice: sequence, then start, stop, step, each once
 fn slice_order(fold: bool) {
-    declare_kinds(1 << crate::instruction::verif_gate::K_SLICING);
+    declare_kinds(1 << crate::instruction::verif_gate::K_SLICING, opbit(BinOperator::AssignAdd));
     let acc = new_cell(Type::Int, Variable::Int(0));
     // the sequence operand has an effect too: it sets acc to 10 (`acc = 10` yields 10 - not a sequence),
     // so the sequence is a constant and the three bounds carry the order: start = 1, stop = 1+2, step = 1+2-2
@@ -180,7 +184,7 @@ pub fn order_slice_bounds_folded() { slice_order(true); kani::cover!(true); }
 
 /// `&&` / `||`: the right operand runs iff the left one does not decide; left exactly once
 fn short_circuit(or: bool, lhs_effect: bool, fold: bool) {
-    declare_kinds(0);
+    declare_kinds(0, opbit(BinOperator::AssignXor) | opbit(if or { BinOperator::Or } else { BinOperator::And }));
     let p: bool = kani::any();
     let f0: bool = kani::any();
     let lflag = new_cell(Type::Bool, Variable::Bool(!p)); // toggled once it becomes p
@@ -214,7 +218,7 @@ sc_harness!(short_circuit_or_const_lhs_folded, true, false, true);
 
 /// `lhs && <constant>` / `lhs || <constant>`: the left operand's effect survives folding
 fn const_rhs(or: bool, c: bool) {
-    declare_kinds(0);
+    declare_kinds(0, opbit(BinOperator::AssignXor) | opbit(if or { BinOperator::Or } else { BinOperator::And }));
     let p: bool = kani::any();
     let lflag = new_cell(Type::Bool, Variable::Bool(!p));
     let tree: Instruction = BinOperation { lhs: toggle(&lflag), rhs: Instruction::Variable(Variable::Bool(c)), op: if or { BinOperator::Or } else { BinOperator::And } }.into();
@@ -237,7 +241,7 @@ pub fn short_circuit_const_rhs_folded() {
 
 /// if / else: condition once, then only the chosen branch
 fn if_else(fold: bool, const_cond: bool) {
-    declare_kinds(1 << crate::instruction::verif_gate::K_IFELSE);
+    declare_kinds(1 << crate::instruction::verif_gate::K_IFELSE, opbit(BinOperator::AssignAdd) | opbit(BinOperator::AssignXor));
     let (a0, d1, d2): (i64, i64, i64) = (kani::any(), kani::any(), kani::any());
     let c: bool = kani::any();
     let acc = new_cell(Type::Int, Variable::Int(a0));
@@ -265,7 +269,7 @@ if_harness!(branch_if_const_cond_folded, true, true);
 
 /// assignment: target then value; the update reads the cell after the value was evaluated
 fn assign_order(fold: bool) {
-    declare_kinds(0);
+    declare_kinds(0, opbit(BinOperator::AssignAdd) | opbit(BinOperator::AssignSubtract));
     let (a0, d1, d2): (i64, i64, i64) = (kani::any(), kani::any(), kani::any());
     let acc = new_cell(Type::Int, Variable::Int(a0));
     // acc -= (acc += d1)   : value evaluated first bumps acc to a0+d1, then acc = (a0+d1) - (a0+d1) = 0
